@@ -103,3 +103,9 @@ Definition m_clear (m : model) : model := empty_model (kd m).
 Definition with_tm (m : model) (t : terms) : model :=
   {| kd := kd m; tm := t; deg_c := deg_c m; vars_c := vars_c m; mp := mp m;
      next_label := next_label m; anc := anc m; cons := cons m; nm := nm m |}.
+
+(* BO.set_mapping / BO.set_reverse_mapping: the mapping is replaced by the one handed over (as (label, integer) pairs in the order
+   of the caller's dictionary); the label counter and everything else are left as they are *)
+Definition set_mapping (m : model) (mpx : list (label * nat)) : model :=
+  {| kd := kd m; tm := tm m; deg_c := deg_c m; vars_c := vars_c m; mp := mpx; next_label := next_label m;
+     anc := anc m; cons := cons m; nm := nm m |}.
